@@ -436,7 +436,7 @@ func runC08(r *Run) {
 		g := hub.arm("dial.before-onclose", nil)
 		s := &session{tc: newTestClient(), v: 1, trans: "tcp"}
 		s.tcp = newTCPPeer()
-		f := &fsession{s, settle()}
+		f := &fsession{s, settle(), -1}
 		errc := make(chan error, 1)
 		go func() {
 			errc <- s.tc.dial(s.tcp.url(), 1, client.DialTimeout(fDial), client.Keepalive(time.Hour), client.KeepaliveTimeout(2*time.Hour))
